@@ -1018,9 +1018,10 @@ class ValueProxy(BaseProxy):
     'remove',
     'reverse',
     'sort',
-    '__imul__',
 )
 class ListProxy(BaseProxy):
+    # `__iadd__` and `__imul__` are defined below rather than generated by `add_proxy_methods`:
+    # an in-place operator must return the proxy itself, not the (copied) result of the call.
     def __iadd__(self, value):
         self._callmethod('extend', (value,))
         return self
